@@ -622,39 +622,43 @@ func (c *Ctx) c12Store() {
 // its header.
 func loopHasEarlyExit(f *ssa.Function) bool {
 	for _, h := range f.Blocks {
+		// natural loop of header h: union over all its back edges
+		body := map[*ssa.BasicBlock]bool{}
+		var stack []*ssa.BasicBlock
 		for _, p := range h.Preds {
-			if !h.Dominates(p) {
-				continue
-			}
-			// natural loop of back edge p→h
-			body := map[*ssa.BasicBlock]bool{h: true}
-			var stack []*ssa.BasicBlock
-			if !body[p] {
+			if h.Dominates(p) && !body[p] && p != h {
 				body[p] = true
 				stack = append(stack, p)
 			}
-			for len(stack) > 0 {
-				x := stack[len(stack)-1]
-				stack = stack[:len(stack)-1]
-				for _, q := range x.Preds {
-					if !body[q] {
-						body[q] = true
-						stack = append(stack, q)
-					}
+			if p == h {
+				body[h] = true
+			}
+		}
+		if len(stack) == 0 && !body[h] {
+			continue
+		}
+		body[h] = true
+		for len(stack) > 0 {
+			x := stack[len(stack)-1]
+			stack = stack[:len(stack)-1]
+			for _, q := range x.Preds {
+				if !body[q] {
+					body[q] = true
+					stack = append(stack, q)
 				}
 			}
-			for b := range body {
-				if b == h {
-					continue
-				}
-				for _, s := range b.Succs {
-					if !body[s] {
-						// exits into panics (bounds checks) do not count
-						if _, isPanic := s.Instrs[len(s.Instrs)-1].(*ssa.Panic); isPanic {
-							continue
-						}
-						return true
+		}
+		for b := range body {
+			if b == h {
+				continue
+			}
+			for _, s := range b.Succs {
+				if !body[s] {
+					// exits into panics (bounds checks) do not count
+					if _, isPanic := s.Instrs[len(s.Instrs)-1].(*ssa.Panic); isPanic {
+						continue
 					}
+					return true
 				}
 			}
 		}
